@@ -532,6 +532,12 @@ def check_delivery(k):
                     return out, nontrivial
             elif label[0] == "p" and not k.probe_procs:
                 pass        # no probe on process events in this mode: only value, termination and liveness are judged
+            elif label[0] == "to" and not k.probe_timeouts:
+                # no probe on timeouts in this mode: the waiter must be resumed at the timeout's own instant
+                due = [t[1] for t in k.trig if t[0] == label]
+                if due and ent[2] != due[0]:
+                    out.append(("once", "timeout-waiter-resumed-at-another-instant", "p%d on %r due %r resumed at %r" % (pid, label, due[0], ent[2])))
+                    return out, nontrivial
             else:
                 rec = inv.get(label)
                 if rec is None or rec["step"] != ent[1]:
